@@ -58,6 +58,7 @@ def measures (v : View) (dens : List (Option Nat × Option Nat × Bool)) (mats :
     ("out", "ok"),
     ("degree", dictJ (nodeDict v degree) natJson),
     ("size", dictJ (edgeDict v size) natJson),
+    ("unique_edge_sizes", Json.arr ((uniqueEdgeSizes v).map natJson).toArray),
     ("neighbors", dictJ (nodeDict v neighbors) setToJson),
     ("average_neighbor_degree", dictJ (nodeDict v avgNbrDeg) ratJson),
     ("clustering_coefficient", dictJ (nodeDict v clusteringCoef) ratJson),
